@@ -602,6 +602,14 @@ Proof.
   intros. unfold actor_accepts. erewrite enum_roundtrip; eauto.
 Qed.
 
+(* primitive message types: Message::deserialize (Message::serialize v) = v *)
+Theorem prim_roundtrip t v : wf_val t v = true ->
+  prim_deserialize t (prim_serialize t v) = POk v.
+Proof. intros H. unfold prim_deserialize, prim_serialize. rewrite roundtrip by assumption. reflexivity. Qed.
+
+Theorem prim_not_cast t m : (forall tag args meta, m <> SCast tag args meta) -> prim_deserialize t m = PErr.
+Proof. destruct m; simpl; auto. intros H. exfalso. eapply H. reflexivity. Qed.
+
 (* ---------- the oracles accept the model ---------- *)
 
 Lemma ev_eqb_refl x : ev_eqb x x = true.
